@@ -45,10 +45,43 @@ impl HealthCheckedContext {
 /// the outcome of one check as the checker task sees it: a timed-out check counts as Unhealthy
 pub open spec fn seen(check_result: Result<HealthStatus, Elapsed>) -> HealthStatus { match check_result { Ok(s) => s, Err(_) => HealthStatus::Unhealthy } }
 
+// ---- C18: run-length lemma over the contract of the status-update block ----
+/// length of the run of failed / timed-out checks at the end of the history of seen results (Unknown results are skipped)
+pub open spec fn fail_run(h: Seq<HealthStatus>) -> nat decreases h.len() {
+    if h.len() == 0 { 0 } else { match h.last() { HealthStatus::Unknown => fail_run(h.drop_last()), HealthStatus::Unhealthy => fail_run(h.drop_last()) + 1, _ => 0 } }
+}
+/// length of the run of non-failing (Healthy or Degraded) checks at the end of the history (Unknown results are skipped)
+pub open spec fn succ_run(h: Seq<HealthStatus>) -> nat decreases h.len() {
+    if h.len() == 0 { 0 } else { match h.last() { HealthStatus::Unknown => succ_run(h.drop_last()), HealthStatus::Unhealthy => 0, _ => succ_run(h.drop_last()) + 1 } }
+}
+/// what one status update does to the counters, as its contract states it
+pub open spec fn upd_post(s0: ContextState, s1: ContextState, seen: HealthStatus) -> bool {
+    match seen {
+        HealthStatus::Unknown => s1.consecutive_failures == s0.consecutive_failures && s1.consecutive_successes == s0.consecutive_successes,
+        HealthStatus::Unhealthy => s1.consecutive_failures == s0.consecutive_failures + 1 && s1.consecutive_successes == 0,
+        _ => s1.consecutive_successes == s0.consecutive_successes + 1 && s1.consecutive_failures == 0,
+    }
+}
+pub open spec fn runs_inv(s: ContextState, h: Seq<HealthStatus>) -> bool {
+    s.consecutive_failures == fail_run(h) && s.consecutive_successes == succ_run(h)
+}
+pub proof fn lemma_runs_init(s: ContextState)
+    requires s.consecutive_failures == 0 && s.consecutive_successes == 0,
+    ensures runs_inv(s, Seq::empty()),   // #zero_counters_are_the_runs_of_the_empty_history [C18]
+{}
+/// the counters are the run lengths of the history of seen results, after every update of the checker task
+pub proof fn lemma_runs_step(s0: ContextState, s1: ContextState, h: Seq<HealthStatus>, seen: HealthStatus)
+    requires runs_inv(s0, h), upd_post(s0, s1, seen),
+    ensures runs_inv(s1, h.push(seen)),   // #counters_are_the_run_lengths_of_the_seen_results [C18]
+{
+    assert(h.push(seen).drop_last() =~= h);
+}
+
 /// the status-update block of the checker task (fragment of HealthCheckWrapper::start, extracted by anchor)
 pub fn update_after_check(ctx_clone: &mut HealthCheckedContext, check_result: Result<HealthStatus, Elapsed>, failure_threshold: u32, success_threshold: u32)
     requires old(ctx_clone).state.consecutive_failures < u64::MAX, old(ctx_clone).state.consecutive_successes < u64::MAX,
     ensures
+        upd_post(old(ctx_clone).state, final(ctx_clone).state, seen(check_result)),   // #each_update_is_a_step_of_the_run_length_history [C18]
         seen(check_result) == HealthStatus::Unknown ==> final(ctx_clone).state.status == old(ctx_clone).state.status
             && final(ctx_clone).state.consecutive_failures == old(ctx_clone).state.consecutive_failures
             && final(ctx_clone).state.consecutive_successes == old(ctx_clone).state.consecutive_successes,   // #unknown_result_changes_nothing [C18]
